@@ -388,7 +388,7 @@ example :
 
 /-! ## C07_removed_content — the emission switch
 
-`Model.step` is one source token through dispatcher + rewrite controller; `Model.steps` a token list.
+`EditModel.step` is one source token through dispatcher + rewrite controller; `EditModel.steps` a token list.
 `RInv` says: `matched_elements_with_removed_content` = number of open elements whose content is
 removed, `emission_enabled` = (that number = 0), and the counter never underflowed. It holds
 initially and after every token, for every set of handlers and every script. -/
